@@ -135,6 +135,13 @@ def compare(impl, model, channels, canon=None):
                 break
             (op, il), (_, ml) = iops[i], mops[i]
             incidental = False
+            if canon and op.startswith("rmc ") and il != ml:
+                # `remove_component` despawns the entities that have the component in an unspecified order. When more than
+                # one entity is despawned and handlers react to it, the two sides may legitimately end in different states
+                # (ordinals, serials, even how far a budgeted cascade gets): nothing from here on can CONFIRM a violation.
+                targets = {m for l in il + ml for m in re.findall(r"Despawn@(#\d+|\?\S+)", l)}
+                if len(targets) >= 2:
+                    break
             for ch in channels + ["exit"]:
                 a = [base_norm(l) for l in il if channel(l) == ch]
                 b = [base_norm(l) for l in ml if channel(l) == ch]
